@@ -168,7 +168,7 @@ IsCase == NextMethod = ""
 (* families of method subsets *)
 All64 == SUBSET Ops
 Tiny == {{}, Ops}
-Four == {{}, {"eq"}, {"lt", "eq"}, {"le", "ne"}}
+Four == {{}, {"lt"}, {"eq"}, {"le", "ne"}}
 Five == {{}, {"lt"}, {"eq"}, {"lt", "eq"}, {"le", "ne"}, Ops}
 Small == {{}, {"lt"}, {"eq"}, {"lt", "eq"}, {"le", "ne"}, {"gt", "eq", "ne"}, Ops}
 Medium == Small \cup {{"ne"}, {"ge", "eq"}, {"lt", "gt"}, {"eq", "ne"}, {"lt", "le", "gt", "ge"}, {"le", "eq"}}
